@@ -161,7 +161,7 @@ def run(repo, R):
             R.ok("Ec", f.site, "one contraction per shell")
     report(R, f, findings)
     if ex is not None:
-        R.floor("Et", n_rec, 30, "two-electron recursion stores")
+        R.floor("Et", n_rec, 16, "two-electron recursion stores")
     # ------------------------------------------------------------------ all-s branch
     findings = []
     f, ex0 = run_kernel(repo, R, ERI, extra_env={"cls": ClsSym()}, if_handler=branch_handler(True))
